@@ -103,8 +103,16 @@ def run(rec, tier, seed):
     nmax = 5 if tier == 'quick' else 6
     variants = [dict(terms=True, coeffs=True, extra=True, cell='ortho'), dict(terms=True, coeffs=False, extra=False, cell='tri'),
                 dict(terms=False, coeffs=True, extra=True, cell=None)]
+    # every present / absent mixture of the four term kinds
+    import itertools as _it
+    allk = ['bond', 'angle', 'dihedral', 'improper']
+    for r in range(1, 4):
+        for ks in _it.combinations(allk, r):
+            variants.append(dict(terms=True, coeffs=(r % 2 == 0), extra=(r % 2 == 1), cell='ortho', kinds=list(ks)))
     for n in range(1, nmax + 1):
         for vi, var in enumerate(variants):
+            if 'kinds' in var and (n < 4 or (tier == 'quick' and n != 5)):
+                continue
             spec = dict(n=n, seed=vi, **var)
             for k in range(1, n + 1):
                 for sub in itertools.combinations(range(n), k):
